@@ -327,9 +327,12 @@ func TypeFamily() []TypeCase {
 // Schema object with an earlier result or with TypeSchemas, equal results for equal
 // arguments, Resolve accepts the result, recursive types give an error, unsupported kinds
 // give an error or are pruned.
-func ForScaffold() (int, []string) {
-	var bad []string
-	n := 0
+func ForScaffold() (n int, bad []string) {
+	defer func() {
+		if r := recover(); r != nil {
+			bad = append(bad, fmt.Sprintf("For panicked: %v", r))
+		}
+	}()
 	ptrs := func(s *jsonschema.Schema) map[*jsonschema.Schema]bool {
 		seen := map[*jsonschema.Schema]bool{}
 		var walk func(v reflect.Value)
